@@ -42,7 +42,12 @@ def run_check(prop, env_extra, tier="quick", extra=()):
     return p.returncode, found, p.stdout
 
 
-def reproduces(prop, wit, env_extra):
+def reproduces(prop, wit, env_extra, sig):
+    try:
+        if (json.load(open(wit)).get("violation") or {}).get("sig") != sig:
+            return False  # a placeholder, or a witness of another finding
+    except Exception:  # noqa
+        return False
     e = dict(os.environ)
     e.update(env_extra)
     p = subprocess.run([os.path.join(VERIF, "check"), prop, "--replay", wit], cwd=VERIF, env=e, stdout=subprocess.PIPE,
@@ -74,9 +79,15 @@ def main():
                     subprocess.run(["git", "-C", "/repo", "worktree", "add", "-q", "--detach", d, c + "~1"], check=True)
                     wts[c] = d
                 env["VERIF_REPO"] = wts[c]
-            if stale_only and os.path.exists(wit) and reproduces(prop, wit, env):
+            if stale_only and os.path.exists(wit) and reproduces(prop, wit, env, sig):
                 print("ok     %s %s" % (prop, sig))
                 continue
+            if not os.path.exists(wit):
+                # the driver insists on a witness file per listed finding: start from another witness of the
+                # property (it will not reproduce this signature) until the real one is recorded
+                others = [os.path.join(VERIF, g["witness"]) for g in doc["findings"] if g["property"] == prop and os.path.exists(os.path.join(VERIF, g["witness"]))]
+                if others:
+                    shutil.copy(others[0], wit)
             got = None
             for tier, extra in (("quick", ()), ("thorough", ("--budget", "60"))):
                 rc, found, out = run_check(prop, env, tier, extra)
